@@ -314,6 +314,12 @@ def oracle(ctx, obs):
                     if v != v or n0[k] != n0[k] or v in (float("inf"), float("-inf")):
                         ctx.count("sweep_spectrum_nonfinite_left_to_C17")
                         continue
+                    if max(abs(n0[k]), abs(v)) < 1e-200:
+                        # next to underflow the two evaluation orders (j * (norm / ref) in the sweep, (norm * j) / centre^2 in the
+                        # accessor) lose precision in subnormal intermediates (thorough seed 2: 7.78e-286, 1.1e-12 relative); the
+                        # identity is exact over the reals (C20_sweep_is_spectrum) and is compared only away from underflow
+                        ctx.count("sweep_spectrum_underflow_range_not_compared")
+                        continue
                     ctx.cov["evaluations"] += 1
                     ctx.count("sweep_spectrum_same_optimum")
                     if not close(n0[k], v):
@@ -321,6 +327,19 @@ def oracle(ctx, obs):
                                       f"the value {v!r} its own JointSpectrum::jsi_normalized reports at its centre",
                                       {"kind": "sweep_vs_spectrum"}, dict(detail, k=k))
                         break
+            # C20_sweep_unit_of_optimised_base: a sweep whose base is the optimised setup and which starts at it gives that entry 1
+            # (only where optimising the optimised setup returns it bit for bit and the first swept setup is the base bit for bit)
+            oo = swp.get("of_optimum")
+            if oo and sec is not None and sec.get("same") is True and oo["first_is_base"]:
+                v = f64_of_hex(oo["normalized0"])
+                if v == v and ri > 1e-250:
+                    ctx.cov["evaluations"] += 1
+                    ctx.count("sweep_unit_of_optimised_base")
+                    if not close(v, 1.0, tol=4e-12):
+                        ctx.violation("S5", f"sweep: an optimised base setup gets the normalised value {v!r} from its own sweep, not 1",
+                                      {"kind": "sweep_unit"}, detail)
+            elif oo:
+                ctx.count("sweep_unit_not_compared")
         elif swp and cc.error_class(swp.get("msg", "")) == "err:impossible_period" and str(swp.get("loc", "")).startswith("src/jsa/joint_spectrum.rs"):
             # one of the swept setups has no optimum (its crystal is shorter than the period it needs) and JointSpectrum::new unwraps
             # try_as_optimum: the known C17 finding F7d, not a statement about normalisation
